@@ -437,6 +437,13 @@ def check_case(case):
         for i in range(B, 0, -1):
             grow(i, crop=gcrop, verbosity=0)
         rcrop = xyz.Crop(name="k", parent_dir=d) if rl in (2, 3) else crop
+        if rl in (2, 3) and core.pick(
+                [far, n, case["mode"], case["req"], case["shuffle"],
+                 "via-farmer"], 2) == 0:
+            # (a new session: the farmer built again from its description,
+            # the sown crop opened through it - nothing is sown again)
+            farmer = make_farmer(d)
+            rcrop = farmer.Crop(name="k", parent_dir=d)
         wkw = {"wait": True} if case.get("wait") else {}
         if far == "runner-df":
             got = rcrop.reap_runner(rcrop.farmer, to_df=True, **wkw)
